@@ -271,6 +271,14 @@ OBS_SCHEMAS = {
         "power.bitproto": "proto power\nenum Cell : uint2 {\n    CELL_UNKNOWN = 0\n    CELL_LION = 1\n}\nmessage Battery {\n    Cell cell = 1\n    uint7 percent = 2\n}\n",
         "clock.bitproto": "proto clock\ntype Stamp = int48\n",
     },
+    # file stems that differ from the proto names they declare, several enum-typed fields per message, aliases, an option
+    "fleet_v2": {
+        "fleet_v2.bitproto": 'proto fleet\nimport "kinds_v1.bitproto"\ntype Id = uint24\ntype Tags = byte[3]\n'
+                             "enum Role : uint2 {\n    ROLE_NONE = 0\n    ROLE_LEAD = 1\n    ROLE_TAIL = 2\n}\nenum Mode : uint4 {\n    MODE_OFF = 0\n    MODE_ON = 9\n}\n"
+                             "message Member {\n    Role role = 1\n    Mode mode = 2\n    kinds.Kind kind = 3\n    Role[3] history = 4\n    Id id = 5\n    Tags tags = 6\n    Mode fallback = 7\n}\n"
+                             "message Fleet {\n    option max_bytes = 64\n    message Slot {\n        Role r = 1\n        Mode m = 2\n        bool free = 3\n    }\n    Member[4] members = 1\n    Role lead = 2\n    Mode mode = 3\n    Slot[2] slots = 4\n}\n",
+        "kinds_v1.bitproto": "proto kinds\nenum Kind : uint5 {\n    KIND_UNKNOWN = 0\n    KIND_A = 17\n}\n",
+    },
 }
 
 
@@ -397,7 +405,7 @@ def main() -> int:
     meta = {
         "functions_encoded": ["compiler/bitproto/utils.py", "compiler/bitproto/_ast.py", "compiler/bitproto/parser.py", "compiler/bitproto/renderer/block.py", "compiler/bitproto/renderer/formatter.py", "compiler/bitproto/linter.py"],
         "bounds": f"{len(PAIRS)} schema pairs (A, B re-using A's names with other values / marks / constant kinds), both orders; modes: no lint, lint before every rendering, render - lint the same tree - render again (= without / with -q); the four renderers in the order c.h, c.c, go, py or reversed; holes 0..199; histories of length 3 (A, B, A) in one process; each job in a worker process of its own (nothing compiled before); for the first {FRESH_PER_JOB} paths of a job the text of the first rendering, literals instantiated by the path's witness, is compared with the file a fresh command-line process writes for that language alone",
-        "process_level_observation": "supporting concrete observation, not a solver verdict: one schema (three imports, nesting, enum, constants, extensible marks) x {c, go, py} through the real command line in 12 fresh processes differing in PYTHONHASHSEED (7 values), working directory (3), relative / absolute path, -q; sha256 of every output file",
+        "process_level_observation": "supporting concrete observation, not a solver verdict: two schemas (three imports, nesting, enum, constants, extensible marks; file stems other than the proto names, five enum-typed fields in one message, aliases, an option) x {c, go, py} through the real command line in 12 fresh processes differing in PYTHONHASHSEED (7 values), working directory (3), relative / absolute path, -q; sha256 of every output file",
         "outside_claim": "decided by the solver for nothing but the in-process history; PYTHONHASHSEED, working / output directories, relative vs absolute paths are only observed on the runs listed: none of these is an input that can be made symbolic (the hash seed is fixed before the interpreter starts; id()-based hashing and dict order are properties of the runtime, not of values); deciding them means re-running the compiler, i.e. enumerating concrete runs",
         "explanation": "kernel only: caches and module-level state keyed on values or classes (functools.cache on formatter / AST methods, class-level attributes, cached lists mutated in place, e.g. by a linter rule) are exercised by compiling A, B, A in one symbolic run, for several target languages in a row; the first and third rendering of A, and the rendering before and after lint, must be the same text with the same terms for all values; the first rendering must be what a fresh process writes",
     }
